@@ -25,13 +25,20 @@ import numpy as np
 
 from harness.common import hash_str
 
-RULE = ("cases: 1-3 sites of dimension 2-3; Hamiltonian = 0-4 tensor-product terms with Fraction "
+RULE = ("base cases: 1-3 sites of dimension 2-3; Hamiltonian = 0-4 tensor-product terms with Fraction "
         "prefactors and symbolic coefficients; 0-3 jump operators on 1-3 sites whose factors are drawn "
         "from identity / real-symmetric / complex-Hermitian / real-non-symmetric / complex-symmetric / "
         "generic matrices with entries in (Z+iZ)/2 (so every labelling shortcut is exercised and the "
         "flags are exact); symbolic rates (positive, negative, complex), all accepted input forms of "
-        "the jump list, custom ket/bra suffixes. non-trivial = distinct case with at least one jump "
-        "operator or a non-symmetric Hamiltonian factor")
+        "the jump list, custom ket/bra suffixes. Input-space families on top (each generated in every run): "
+        "dims (1-4 sites, dimension-1 and dimension-4 sites), dtype (float64 / float32 / int64 / complex64 "
+        "arrays, Fortran-ordered, strided and read-only arrays), scale (operators times 2^k, |k| <= 27, exact; "
+        "coefficient values 1e-8..1e+8; tolerance relative to the data scale), zero (zero rate / zero prefactor / "
+        "zero matrix), api (suffix defaults not passed / passed positionally, jump lists mixing tuples and bare "
+        "tensor products, Hamiltonians built by add_term / add_multiple_terms / add_hamiltonian / + / bare terms / "
+        "default coefficient mapping, unused labels and symbols, a rate symbol that is also a Hamiltonian symbol, "
+        "NumPy / int rate values, exact_lindbladian on real-typed arrays). non-trivial = distinct case with at "
+        "least one jump operator or a non-symmetric Hamiltonian factor")
 PARTIAL = ["the property is false of the code (open finding F-C15, theorem anticomm_bra_sign_witness): "
            "what is checked is generated == GKSL + i*sum_k gamma_k 1 (x) (L_k^dagger L_k)^T exactly",
            "the matrix denotation (theorem lindblad_denote_eq: n-site Kronecker product over an arbitrary finite "
@@ -52,6 +59,24 @@ ASSUMPTIONS = ["every label used by a term is a key of the corresponding diction
                "generated coefficient '1*j' is missing from coeffs_mapping); the harness always passes '1': 1 there"]
 
 KINDS = ["I", "rs", "hc", "rn", "cs", "gc"]
+KINDS_D1 = ["I", "rs", "cs"]            # the kinds that exist for a 1x1 matrix ("Z" = zero matrix: any dimension)
+
+# Families that fail on the unchanged /repo and are therefore NOT generated by default (reported to the
+# coordinator as possible genuine defects; reproducing scripts in notes/C15.md, section "Input-space audit").
+# `VERIF_PENDING=1 ./check C15` generates them.
+PENDING_FINDINGS = {
+    "threshold": {
+        "family": "threshold",
+        "inputs": "an operator of conversion_dictionary / jump_operator_dict that is within rtol=1e-5 / atol=1e-10 "
+                  "(issymmetric, ishermitian) or rtol=1e-5 / atol=1e-8 (allclose(., eye)) of being symmetric / "
+                  "Hermitian / the identity without being it exactly: (a) rs + 2^-24 * strictly-upper-triangular ones "
+                  "as a Hamiltonian or jump factor, (b) hc + 2^-24 * i * (symmetric off-diagonal ones) as a jump factor, "
+                  "(c) any non-symmetric operator times 2^-40, (d) (1 + 2^-17 i) * identity as a jump factor",
+        "message": "(a)-(c): 'generate_lindbladian: ||generated - GKSL|| = ...' with a relative residual up to 1e-5 "
+                   "(a, b) or O(1) (c), conversion_dictionary keys lack X_T / X_H (the shortcut was taken); "
+                   "(d): 'generate_lindbladian raised KeyError: 'X_H''",
+    },
+}
 FRACS = [Fraction(1), Fraction(1), Fraction(1, 2), Fraction(2), Fraction(3, 4), Fraction(1, 3),
          Fraction(-1), Fraction(-1, 2), Fraction(5, 3), Fraction(-3, 2)]
 
@@ -60,7 +85,7 @@ FRACS = [Fraction(1), Fraction(1), Fraction(1, 2), Fraction(2), Fraction(3, 4), 
 
 def make_op(kind: str, d: int, seed: int) -> np.ndarray:
     """A d×d matrix with entries in (Z+iZ)/2 that has exactly the properties of `kind`."""
-    rng = random.Random(seed * 7919 + d * 31 + KINDS.index(kind))
+    rng = random.Random(seed * 7919 + d * 31 + (KINDS.index(kind) if kind in KINDS else 99))
 
     def rmat(cplx):
         m = np.array([[rng.randint(-2, 2) / 2 for _ in range(d)] for _ in range(d)], dtype=complex)
@@ -69,6 +94,8 @@ def make_op(kind: str, d: int, seed: int) -> np.ndarray:
         return m
     if kind == "I":
         return np.eye(d, dtype=complex)
+    if kind == "Z":
+        return np.zeros((d, d), dtype=complex)
     for _ in range(1000):
         if kind == "rs":
             a = rmat(False)
@@ -115,26 +142,37 @@ def _rand_val(rng, allow_complex=True, positive=False):
 def gen_case(rng, force=None):
     force = force or {}
     nsites = force.get("nsites", rng.choice([1, 1, 2, 2, 2, 3]))
-    dims = [rng.choice([2, 2, 3]) for _ in range(nsites)]
-    if nsites == 3 and dims.count(3) == 3:
-        dims[rng.randrange(3)] = 2
+    if "dims" in force:
+        dims = list(force["dims"])
+        nsites = len(dims)
+    else:
+        dims = [rng.choice([2, 2, 3]) for _ in range(nsites)]
+        if nsites == 3 and dims.count(3) == 3:
+            dims[rng.randrange(3)] = 2
     sites = {f"s{i}": dims[i] for i in range(nsites)}
-    if rng.random() < 0.15:                     # identifiers that are prefixes of each other
+    if rng.random() < 0.15 and nsites <= 3:     # identifiers that are prefixes of each other
         names = ["n", "n1", "n10"][:nsites]
         sites = {names[i]: dims[i] for i in range(nsites)}
     site_ids = list(sites)
     ops = {}
+    zero_ops = force.get("zero_ops", False)
 
     def pick_label(d, kinds=KINDS):
+        if d == 1:
+            kinds = [k for k in kinds if k in KINDS_D1] or ["rs"]
         kind = rng.choice(kinds)
-        idx = 0 if kind == "I" else rng.randrange(2)
-        label = f"{kind}{d}x{idx}" if kind != "I" else f"I{d}"
+        if zero_ops and rng.random() < 0.3:
+            kind = "Z"
+        idx = 0 if kind in ("I", "Z") else rng.randrange(2)
+        label = f"{kind}{d}x{idx}" if kind not in ("I", "Z") else f"{kind}{d}"
         ops[label] = {"d": d, "kind": kind, "seed": idx}
         return label
 
     herm_h = force.get("herm_h", rng.random() < 0.5)
     njumps = force.get("njumps", rng.choice([0, 1, 1, 2, 2, 3]))
     nham = rng.choice([0, 1, 2, 2, 3, 4]) if njumps else rng.choice([1, 2, 3, 4])
+    nham = force.get("nham", nham)
+    plain_h = force.get("plain_h", False)        # every Hamiltonian term is 1 * "1" * tensor product
     hcoeffs = {"1": [1.0, 0.0]}
     ham = []
     for _ in range(nham):
@@ -142,19 +180,24 @@ def gen_case(rng, force=None):
         ss = rng.sample(site_ids, k)
         kinds = ["I", "rs", "hc"] if herm_h else KINDS
         tp = {s: pick_label(sites[s], kinds) for s in ss}
-        coeff = rng.choice(["1", "J", "g"])
+        coeff = "1" if plain_h else rng.choice(["1", "J", "g"])
         if coeff not in hcoeffs:
             hcoeffs[coeff] = _rand_val(rng, allow_complex=not herm_h)
-        fr = rng.choice(FRACS)
+        fr = Fraction(1) if plain_h else rng.choice(FRACS)
         ham.append([fr.numerator, fr.denominator, coeff, tp])
     jumps, jcoeffs = [], {}
     form = "tuples"
+    bare_idx = []
     if njumps == 0:
         form = rng.choice(["none", "empty"])
+    elif force.get("form") == "mixed" and njumps >= 2:
+        form = "mixed"
+        bare_idx = sorted(rng.sample(range(njumps), rng.randint(1, njumps - 1)))
     elif rng.random() < 0.15:
         form = "bare"
     elif njumps == 1 and rng.random() < 0.3:
         form = rng.choice(["single-tuple", "single-bare"])
+    rate_symbols = force.get("rate_symbols", ["gam0", "gam1", "1"])
     for j in range(njumps):
         k = min(nsites, rng.choice([1, 1, 2, 2, 3]))
         ss = rng.sample(site_ids, k)
@@ -162,11 +205,11 @@ def gen_case(rng, force=None):
         if all(ops[l]["kind"] == "I" for l in tp.values()) and rng.random() < 0.8:
             s = ss[0]
             tp[s] = pick_label(sites[s], KINDS[1:])
-        if form in ("bare", "single-bare"):
+        if form in ("bare", "single-bare") or j in bare_idx:
             coeff, fr = "1", Fraction(1)
             jcoeffs["1"] = [1.0, 0.0]
         else:
-            coeff = rng.choice(["gam0", "gam1", "1"])
+            coeff = rng.choice(rate_symbols)
             if coeff == "1":
                 jcoeffs["1"] = [1.0, 0.0]
             elif coeff not in jcoeffs:
@@ -179,9 +222,203 @@ def gen_case(rng, force=None):
         d = rng.choice(list(sites.values()))
         extra.append(pick_label(d))
     suff = rng.choice([["_ket", "_bra"]] * 4 + [["K", "B"], ["_bra", "_ket"], ["_a", "_ab"]])
-    return {"sites": sites, "ops": ops, "ham": ham, "hcoeffs": hcoeffs, "jumps": jumps,
+    if "suffixes" in force:
+        suff = list(force["suffixes"])
+    case = {"sites": sites, "ops": ops, "ham": ham, "hcoeffs": hcoeffs, "jumps": jumps,
             "jcoeffs": jcoeffs, "form": form, "extra_jump_labels": extra, "ket": suff[0], "bra": suff[1],
             "herm_h": herm_h, "t": rng.choice([0.1, 0.3, 0.7])}
+    if bare_idx:
+        case["bare_idx"] = bare_idx
+    return case
+
+
+# ---- input-space families (decorations of a base case; every field is optional, default = base behaviour)
+
+SCALE_EXPS = [27, -27, 20, -20, 13, -13]
+MIN_JUMP_EXP = -13
+COEFF_MAGS = [1e8, 1e-8, 1e4, 1e-4]
+LAYOUTS = ["F", "strided", "readonly", "Tview"]
+
+
+def _dtype_choices(kind, d):
+    """array types in which an operator of this kind is exactly representable"""
+    real = kind in ("I", "rs", "rn", "Z")
+    return (["f64", "f32", "i64", "c64"] if real else ["c64"])
+
+
+def decorate_dtype(rng, case):
+    for o in case["ops"].values():
+        r = rng.random()
+        if r < 0.6:
+            o["dtype"] = rng.choice(_dtype_choices(o["kind"], o["d"]))
+            if o["dtype"] == "i64" and o["kind"] not in ("I", "Z"):
+                o["mul"] = 2                       # entries of 2*X are integers
+        if rng.random() < 0.5:
+            o["layout"] = rng.choice(LAYOUTS)
+    case["family"] = "dtype"
+
+
+def decorate_scale(rng, case, i=None):
+    k = rng.choice(SCALE_EXPS) if i is None else SCALE_EXPS[i % len(SCALE_EXPS)]
+    modes = ["uniform", "uniform", "mixed", "coeff-only"]
+    mode = rng.choice(modes) if i is None else modes[(i // len(SCALE_EXPS)) % len(modes)]
+    jl = set(jump_labels(case))
+    for l, o in case["ops"].items():
+        if o["kind"] in ("I", "Z") or mode == "coeff-only":
+            continue
+        if mode == "uniform" or rng.random() < 0.5:
+            # jump factors smaller than 2^-13: L^dagger L falls below the absolute tolerance of the library's
+            # symmetry test - family `threshold` (PENDING_FINDINGS), not generated here
+            o["exp"] = max(k, MIN_JUMP_EXP) if l in jl else k
+    if mode == "coeff-only" or rng.random() < 0.4:
+        f = rng.choice(COEFF_MAGS)
+        g = rng.choice(COEFF_MAGS + [f, f])
+        for key, v in case["hcoeffs"].items():
+            if key != "1":
+                case["hcoeffs"][key] = [v[0] * f, v[1] * f]
+        for key, v in case["jcoeffs"].items():
+            if key != "1":
+                case["jcoeffs"][key] = [v[0] * g, v[1] * g]
+    case["family"] = "scale"
+
+
+def decorate_zero(rng, case):
+    what = []
+    if case["jumps"] and rng.random() < 0.6:
+        syms = [t[2] for t in case["jumps"] if t[2] != "1"]
+        if syms:
+            case["jcoeffs"][rng.choice(syms)] = [0.0, 0.0]
+            what.append("rate")
+    for which in ("ham", "jumps"):
+        for i, t in enumerate(case[which]):
+            if rng.random() < 0.25 and not (which == "jumps" and (case["form"] in ("bare", "single-bare")
+                                                                   or i in case.get("bare_idx", []))):
+                t[0], t[1] = 0, 1
+                what.append("prefactor")
+    case["family"] = "zero"
+    case["zero"] = sorted(set(what))
+
+
+def decorate_api(rng, case, i=None):
+    if (case["ket"], case["bra"]) == ("_ket", "_bra"):
+        case["call"] = rng.choice(["default", "default", "positional", "keywords"])
+    else:
+        case["call"] = rng.choice(["positional", "keywords"])
+    plain = all(t[0] == 1 and t[1] == 1 and t[2] == "1" for t in case["ham"])
+    routes = ["add_term", "add_multiple_terms", "add_hamiltonian", "plus", "single"]
+    if plain:
+        routes = ["bare", "bare_add", "default_coeffs"]
+    case["ham_form"] = rng.choice(routes) if i is None else routes[(i // 2) % len(routes)]
+    if case["ham_form"] == "single" and len(case["ham"]) != 1:
+        case["ham_form"] = "ctor"
+    if rng.random() < 0.4 and case["ham"]:
+        d = rng.choice(list(case["sites"].values()))
+        kinds = KINDS_D1 if d == 1 else (["I", "rs", "hc"] if case["herm_h"] else KINDS)
+        kind = rng.choice(kinds)
+        idx = 0 if kind == "I" else rng.randrange(2)
+        label = f"{kind}{d}x{idx}" if kind != "I" else f"I{d}"
+        case["ops"].setdefault(label, {"d": d, "kind": kind, "seed": idx})
+        case["extra_ham_labels"] = [label]
+    if rng.random() < 0.4 and case["ham_form"] != "default_coeffs":
+        case["hcoeffs"]["hunused"] = _rand_val(rng)
+    if rng.random() < 0.4 and case["jumps"]:
+        case["jcoeffs"]["junused"] = _rand_val(rng)
+    if rng.random() < 0.5:
+        case["rate_types"] = rng.choice(["numpy", "int", "complex"])
+        if case["rate_types"] == "int":
+            for key in case["jcoeffs"]:
+                if key != "1":
+                    case["jcoeffs"][key] = [float(rng.choice([1, 2, 3, -1])), 0.0]
+    case["family"] = "api"
+
+
+def perturb(m, kind, k):
+    """near-threshold operators of the family `threshold` (see PENDING_FINDINGS)"""
+    d = m.shape[0]
+    eps = 2.0 ** k
+    if kind == "asym":
+        return m + eps * np.triu(np.ones((d, d)), 1)
+    if kind == "aherm":
+        return m + 1j * eps * (np.ones((d, d)) - np.eye(d))
+    if kind == "phase":
+        return (1 + 1j * eps) * np.eye(d, dtype=complex)
+    raise ValueError(kind)
+
+
+def decorate_threshold(rng, case):
+    labels = [l for l, o in case["ops"].items() if o["d"] >= 2]
+    for l in labels:
+        o = case["ops"][l]
+        if o["kind"] == "rs":
+            o["pert"] = ["asym", -24]
+        elif o["kind"] == "hc":
+            o["pert"] = ["aherm", -24]
+        elif o["kind"] == "I" and l in [x for t in case["jumps"] for x in t[3].values()] \
+                and l not in [x for t in case["ham"] for x in t[3].values()]:
+            o["pert"] = ["phase", -17]
+        elif o["kind"] in ("rn", "gc", "cs"):
+            # 2^-27 ~ 7e-9: the operator is classified correctly, its product L^dagger L (~ 5e-17) is not
+            o["exp"] = rng.choice([-27, -40])
+    case["family"] = "threshold"
+    case["herm_h"] = False                          # the perturbed Hamiltonian factors are not Hermitian
+
+
+FAMILIES = {"dtype": decorate_dtype, "scale": decorate_scale, "zero": decorate_zero, "api": decorate_api,
+            "threshold": decorate_threshold}
+
+
+def gen_family_case(rng, family, i=None):
+    """One case of an input-space family; `i` (position in the family) makes the rarely used values cycle, so
+    that every run contains each of them."""
+    force = {}
+    if family == "dims":
+        nsites = rng.choice([1, 2, 2, 3, 3, 4, 4])
+        while True:
+            dims = [rng.choice([1, 1, 2, 2, 3, 4]) for _ in range(nsites)]
+            if int(np.prod(dims)) <= 16 and (max(dims) > 1 or rng.random() < 0.2):
+                break
+        force["dims"] = dims
+        case = gen_case(rng, force)
+        case["family"] = "dims"
+        return case
+    if family == "scale":
+        r = rng.random()
+        k = None if i is None else SCALE_EXPS[i % len(SCALE_EXPS)]
+        if k is not None and k < MIN_JUMP_EXP and r < 0.6:
+            force["njumps"] = 0                     # the smallest operators: Hamiltonian factors only
+        elif r < 0.35:
+            force["nham"] = 0
+            force["njumps"] = rng.choice([1, 1, 2])
+        elif r < 0.5:
+            force["njumps"] = 0
+    if family == "zero":
+        force["zero_ops"] = True
+        force["njumps"] = rng.choice([1, 2, 2, 3])
+    if family == "api":
+        r = rng.random()
+        if r < 0.35:
+            force["form"] = "mixed"
+            force["njumps"] = rng.choice([2, 3])
+        if (rng.random() < 0.4) if i is None else (i % 2 == 1):
+            force["plain_h"] = True
+        elif i is not None and (i // 2) % 5 == 4:
+            force["nham"] = 1                       # the route `single` (one term given as a tuple)
+        if rng.random() < 0.6:
+            force["suffixes"] = ["_ket", "_bra"]
+        force["rate_symbols"] = ["gam0", "gam1", "1", "J", "g"]      # "J", "g" are Hamiltonian symbols too
+    if family == "threshold":
+        force["njumps"] = rng.choice([0, 1, 2])
+    case = gen_case(rng, force)
+    if family in ("scale", "api"):
+        FAMILIES[family](rng, case, i)
+    else:
+        FAMILIES[family](rng, case)
+    return case
+
+
+def pending_enabled():
+    import os
+    return os.environ.get("VERIF_PENDING", "") == "1"
 
 
 def gen_cases(ctx):
@@ -193,16 +430,72 @@ def gen_cases(ctx):
         if i % 5 == 0:
             force = {"njumps": 0}                   # Hamiltonian-only: consequences not masked
         cases.append(gen_case(rng, force))
+    frng = ctx.subrng("families")
+    per = ctx.n(50, 600)
+    for family in ("dims", "dtype", "scale", "zero", "api"):
+        for i in range(per):
+            cases.append(gen_family_case(frng, family, i))
+    if pending_enabled():
+        for i in range(per):
+            cases.append(gen_family_case(frng, "threshold", i))
     return cases
 
 
 # ------------------------------------------------------------------ building the library objects
 
 def matrices(case):
-    return {l: make_op(o["kind"], o["d"], o["seed"]) for l, o in case["ops"].items()}
+    """The operators of the case as mathematical objects (complex128, exact)."""
+    out = {}
+    for l, o in case["ops"].items():
+        m = make_op(o["kind"], o["d"], o["seed"])
+        if o.get("mul"):
+            m = m * o["mul"]
+        if o.get("exp"):
+            m = m * (2.0 ** o["exp"])
+        if o.get("pert"):
+            m = perturb(m, *o["pert"])
+        out[l] = m
+    return out
 
 
-def cval(v):
+def typed(o, m):
+    """The array handed to the library for the operator `m`: element type and memory layout of the case.
+    The value is unchanged (checked) - only the representation differs."""
+    from harness.common import HarnessError
+    dt = o.get("dtype", "c128")
+    if dt == "f64":
+        a = m.real.astype(np.float64)
+    elif dt == "f32":
+        a = m.real.astype(np.float32)
+    elif dt == "i64":
+        a = np.rint(m.real).astype(np.int64)
+    elif dt == "c64":
+        a = m.astype(np.complex64)
+    else:
+        a = m.copy()
+    lay = o.get("layout", "C")
+    if lay == "F":
+        a = np.asfortranarray(a)
+    elif lay == "strided":
+        big = np.zeros((2 * a.shape[0], 3 * a.shape[1]), dtype=a.dtype)
+        big[::2, 1::3] = a
+        a = big[::2, 1::3]
+    elif lay == "Tview":
+        a = np.ascontiguousarray(a.T).T
+    elif lay == "readonly":
+        a.setflags(write=False)
+    if not np.array_equal(a, m):
+        raise HarnessError(f"C15: operator not representable as {dt}")
+    return a
+
+
+def cval(v, how=None):
+    if how == "numpy":
+        return np.complex128(complex(v[0], v[1])) if v[1] else np.float64(v[0])
+    if how == "int" and not v[1] and float(v[0]).is_integer():
+        return int(v[0])
+    if how == "complex":
+        return complex(v[0], v[1])
     return complex(v[0], v[1]) if v[1] else float(v[0])
 
 
@@ -212,6 +505,9 @@ def ham_labels(case):
         for l in t[3].values():
             if l not in out:
                 out.append(l)
+    for l in case.get("extra_ham_labels", []):
+        if l not in out:
+            out.append(l)
     return out
 
 
@@ -227,16 +523,61 @@ def jump_labels(case):
     return out
 
 
-def build_objects(case):
+def build_hamiltonian(case, hterms, hdict, hcm):
+    """The Hamiltonian object, built by the public route `ham_form` of the case (default: constructor)."""
     from pytreenet.operators.hamiltonian import Hamiltonian
+    route = case.get("ham_form", "ctor")
+    if route == "ctor":
+        return Hamiltonian(hterms, hdict, hcm)
+    if route == "single" and len(hterms) == 1:
+        return Hamiltonian(hterms[0], hdict, hcm)
+    if route == "single":
+        return Hamiltonian(hterms, hdict, hcm)
+    if route == "add_term":
+        ham = Hamiltonian(None, hdict, hcm)
+        for t in hterms:
+            ham.add_term(t)
+        return ham
+    if route == "add_multiple_terms":
+        ham = Hamiltonian(conversion_dictionary=hdict, coeffs_mapping=hcm)
+        ham.add_multiple_terms(hterms)
+        return ham
+    if route in ("add_hamiltonian", "plus"):
+        cut = len(hterms) // 2
+        labels = list(hdict)
+        h1 = Hamiltonian(hterms[:cut], {l: hdict[l] for l in labels[::2]},
+                         {k: v for i, (k, v) in enumerate(hcm.items()) if i % 2 == 0})
+        h2 = Hamiltonian(hterms[cut:], {l: hdict[l] for l in labels[1::2]},
+                         {k: v for i, (k, v) in enumerate(hcm.items()) if i % 2 == 1})
+        if route == "plus":
+            return h1 + h2
+        h1.add_hamiltonian(h2)
+        return h1
+    if route == "bare":                 # terms given as bare tensor products (implicit 1 * "1")
+        tps = [t[2] for t in hterms]
+        return Hamiltonian(tps[0] if len(tps) == 1 else tps, hdict, hcm)
+    if route == "bare_add":             # bare tensor products through add_term / add_multiple_terms
+        ham = Hamiltonian(None, hdict, hcm)
+        if hterms:
+            ham.add_term(hterms[0][2])
+        if len(hterms) > 1:
+            ham.add_multiple_terms([t[2] for t in hterms[1:]])
+        return ham
+    if route == "default_coeffs":       # coefficient mapping left to its default {"1": 1}
+        return Hamiltonian(hterms, hdict)
+    raise ValueError(route)
+
+
+def build_objects(case):
     from pytreenet.operators.tensorproduct import TensorProduct
     mats = matrices(case)
+    how = case.get("rate_types")
     hterms = [(Fraction(t[0], t[1]), t[2], TensorProduct(dict(t[3]))) for t in case["ham"]]
-    hdict = {l: mats[l].copy() for l in ham_labels(case)}
+    hdict = {l: typed(case["ops"][l], mats[l]) for l in ham_labels(case)}
     hcm = {k: cval(v) for k, v in case["hcoeffs"].items()}
-    ham = Hamiltonian(hterms, hdict, hcm)
-    jdict = {l: mats[l].copy() for l in jump_labels(case)}
-    jcm = {k: cval(v) for k, v in case["jcoeffs"].items()}
+    ham = build_hamiltonian(case, hterms, hdict, hcm)
+    jdict = {l: typed(case["ops"][l], mats[l]) for l in jump_labels(case)}
+    jcm = {k: cval(v, how) for k, v in case["jcoeffs"].items()}
     form = case["form"]
     jt = [(Fraction(t[0], t[1]), t[2], TensorProduct(dict(t[3]))) for t in case["jumps"]]
     if form == "none":
@@ -245,6 +586,8 @@ def build_objects(case):
         jarg = []
     elif form == "bare":
         jarg = [t[2] for t in jt]
+    elif form == "mixed":
+        jarg = [(t[2] if i in case.get("bare_idx", []) else t) for i, t in enumerate(jt)]
     elif form == "single-tuple":
         jarg = jt[0]
     elif form == "single-bare":
@@ -342,10 +685,17 @@ def parse_model(out):
 
 # ------------------------------------------------------------------ dense evaluation (harness's own)
 
+def kron2(a, b):
+    """Kronecker product of two matrices (same result as numpy.kron, without its per-call overhead)"""
+    a = np.asarray(a)
+    b = np.asarray(b)
+    return (a[:, None, :, None] * b[None, :, None, :]).reshape(a.shape[0] * b.shape[0], a.shape[1] * b.shape[1])
+
+
 def kron_all(mats):
     out = np.eye(1, dtype=complex)
     for m in mats:
-        out = np.kron(out, m)
+        out = kron2(out, m)
     return out
 
 
@@ -417,8 +767,20 @@ def dictionary_problems(lind, mats, jcm, flags_of):
 
 # ------------------------------------------------------------------ run
 
+def corpus_cases():
+    import glob
+    import json
+    import os
+    from harness import common
+    out = []
+    for path in sorted(glob.glob(os.path.join(common.CORPUS_DIR, "C15", "*.json"))):
+        payload = common.unjson(json.load(open(path)))
+        out.append(payload.get("case", payload))
+    return out
+
+
 def run(ctx):
-    cases = gen_cases(ctx)
+    cases = corpus_cases() + gen_cases(ctx)
     outs = ctx.lean.batch([model_line(c) for c in cases])
     for c, o in zip(cases, outs):
         if ctx.time_left() < 0:
@@ -439,7 +801,8 @@ def run_case(ctx, case, model_out=None):
     ham, jarg, jdict, jcm, _ = build_objects(case)
     nonsym_h = any(not flags_of(mats[l])["sym"] for l in ham_labels(case))
     key = repr((sorted(sites.items()), case["ham"], case["jumps"], sorted(case["ops"].items(), key=str),
-                case["form"], ket, bra))
+                case["form"], ket, bra, case.get("call"), case.get("ham_form"), case.get("rate_types"),
+                sorted(case["hcoeffs"].items()), sorted(case["jcoeffs"].items())))
     ctx.count(key, nontrivial=(njumps > 0 or nonsym_h), corr=True)
     ctx.tally("sites", len(sites))
     ctx.tally("total_dimension", int(np.prod(list(sites.values()))))
@@ -447,6 +810,36 @@ def run_case(ctx, case, model_out=None):
     ctx.tally("hamiltonian_terms", len(case["ham"]))
     ctx.tally("jump_input_form", case["form"])
     ctx.tally("suffixes", f"{ket}/{bra}")
+    ctx.tally("family", case.get("family", "base"))
+    ctx.tally("call_style", case.get("call", "keywords"))
+    ctx.tally("hamiltonian_built_by", case.get("ham_form", "ctor"))
+    ctx.tally("rate_value_type", case.get("rate_types", "float/complex"))
+    for d in sites.values():
+        ctx.tally("site_dimension", d)
+    for l in set(ham_labels(case)) | set(jump_labels(case)):
+        o = case["ops"][l]
+        ctx.tally("operator_dtype", o.get("dtype", "c128"))
+        ctx.tally("operator_layout", o.get("layout", "C"))
+        ctx.tally("operator_scale_exp2", o.get("exp", 0))
+        if o["kind"] == "Z":
+            ctx.tally("zero_inputs", "zero matrix")
+    for which in ("hcoeffs", "jcoeffs"):
+        for k_, v_ in case[which].items():
+            mag = math.hypot(v_[0], v_[1])
+            ctx.tally("coefficient_magnitude_log10", "zero" if mag == 0 else int(round(math.log10(mag))))
+            if mag == 0:
+                ctx.tally("zero_inputs", "zero rate")
+    for t in case["ham"] + case["jumps"]:
+        if t[0] == 0:
+            ctx.tally("zero_inputs", "zero prefactor")
+    if case.get("extra_ham_labels"):
+        ctx.tally("unused_inputs", "Hamiltonian label")
+    if case.get("extra_jump_labels"):
+        ctx.tally("unused_inputs", "jump label")
+    if "hunused" in case["hcoeffs"] or "junused" in case["jcoeffs"]:
+        ctx.tally("unused_inputs", "coefficient symbol")
+    if any(t[2] in case["hcoeffs"] and t[2] != "1" for t in case["jumps"]):
+        ctx.tally("unused_inputs", "rate symbol that is also a Hamiltonian symbol")
     for t in case["jumps"]:
         ctx.tally("jump_sites", len(t[3]))
         for l in t[3].values():
@@ -466,8 +859,14 @@ def run_case(ctx, case, model_out=None):
     import copy as _copy
     ham_before = (_copy.deepcopy(dict(ham.coeffs_mapping)), sorted(ham.conversion_dictionary),
                   [repr(t) for t in ham.terms])
+    call = case.get("call", "keywords")
     try:
-        lind = generate_lindbladian(ham, jarg, jdict, jcm, ket_suffix=ket, bra_suffix=bra)
+        if call == "default" and (ket, bra) == ("_ket", "_bra"):
+            lind = generate_lindbladian(ham, jarg, jdict, jcm)          # the documented defaults
+        elif call == "positional":
+            lind = generate_lindbladian(ham, jarg, jdict, jcm, ket, bra)
+        else:
+            lind = generate_lindbladian(ham, jarg, jdict, jcm, ket_suffix=ket, bra_suffix=bra)
     except Exception as e:          # noqa: BLE001
         ctx.oracle_fail(case, f"generate_lindbladian raised {type(e).__name__}: {str(e)[:200]}")
         return
@@ -523,7 +922,7 @@ def run_case(ctx, case, model_out=None):
             jcm2 = {k: (2 * v + 0.375) for k, v in jcm.items()}
             generate_lindbladian(ham, jarg, jdict, jcm2, ket_suffix=ket, bra_suffix=bra)
             gen_again = dense_of_terms(lind.terms, lind.conversion_dictionary, lind.coeffs_mapping, order2, dims2)
-            if np.linalg.norm(gen_again - gen) > 1e-12 * max(1.0, np.linalg.norm(gen)):
+            if np.linalg.norm(gen_again - gen) > 1e-12 * np.linalg.norm(gen):
                 probs.append("a Lindbladian built earlier changed its value after another one was built from the same "
                              "Hamiltonian with different rates")
         except Exception as e:      # noqa: BLE001
@@ -535,6 +934,12 @@ def run_case(ctx, case, model_out=None):
     gksl = np.kron(Hd, one) - np.kron(one, Hd.T)
     known = np.zeros_like(gksl)
     dense_jumps = []
+    # data scale: the sum of the norms of the pieces the formula adds up (>= ||GKSL||, no absolute floor, so the
+    # comparison is as sharp for operators of size 1e-8 as for operators of size 1e+8)
+    scale = 0.0
+    for t in case["ham"]:
+        piece = abs(float(Fraction(t[0], t[1])) * complex(hcm[t[2]])) * np.linalg.norm(embed(t[3], order, sites, mats))
+        scale += 2.0 * piece * math.sqrt(D)
     for t in case["jumps"]:
         rate = float(Fraction(t[0], t[1])) * complex(cval(case["jcoeffs"][t[2]]))
         L = embed(t[3], order, sites, mats)
@@ -542,7 +947,7 @@ def run_case(ctx, case, model_out=None):
         gksl += 1j * rate * (np.kron(L, L.conj()) - 0.5 * np.kron(LdL, one) - 0.5 * np.kron(one, LdL.T))
         known += 1j * rate * np.kron(one, LdL.T)
         dense_jumps.append((cmath.sqrt(rate), L))
-    scale = max(1.0, np.linalg.norm(gksl))
+        scale += abs(rate) * (np.linalg.norm(L) ** 2 + np.linalg.norm(LdL) * math.sqrt(D))
     tol = 1e-9 * scale
 
     def classify(matrix, name):
@@ -584,6 +989,17 @@ def run_case(ctx, case, model_out=None):
                 if np.linalg.norm(mx - ex) > tol:
                     probs.append(f"exact_lindbladian with a mixed list of (coefficient, L) tuples and bare operators "
                                  f"({nm}) differs from the all-tuple form by {np.linalg.norm(mx - ex):.3e}")
+        if not np.any(Hd.imag) and all(not np.any(L.imag) and complex(c).imag == 0 for c, L in dense_jumps) \
+                and case.get("family") in ("dtype", "api"):
+            # the same problem in real-typed arrays (float64 Hamiltonian, float64 / float32-representable jumps,
+            # Python-float / int / NumPy coefficients, Fortran order)
+            ctx.tally("exact_lindbladian_input_types", "real-typed")
+            exr = exact_lindbladian(np.asfortranarray(Hd.real.copy()),
+                                    [(np.float64(complex(c).real), np.asfortranarray(L.real.copy()))
+                                     for c, L in dense_jumps])
+            if np.linalg.norm(exr - ex) > tol:
+                probs.append(f"exact_lindbladian on real-typed arrays differs from the complex-typed call by "
+                             f"{np.linalg.norm(exr - ex):.3e}")
         if case["form"] == "bare" or case["form"] == "single-bare":
             ex1 = exact_lindbladian(Hd.copy(), [L.copy() for _, L in dense_jumps])       # bare form: rate 1
             if np.linalg.norm(ex1 - gen) > tol:
@@ -604,7 +1020,9 @@ def run_case(ctx, case, model_out=None):
             G = -1j * Lm
             if np.linalg.norm(G.conj()[np.ix_(idx, idx)] - G) > tol:
                 probs.append("Hermiticity not preserved by the generator")
-        if D <= 9:
+        if D <= 9 and float(np.linalg.norm(case["t"] * Lm, 2)) > 40.0:
+            ctx.boundary_skipped += 1           # exp(-itL) of a generator of size >> 1: round-off of the reference
+        elif D <= 9:
             nprng = np.random.default_rng(hash_str(key))
             A = nprng.normal(size=(D, D)) + 1j * nprng.normal(size=(D, D))
             rho = A @ A.conj().T
@@ -618,9 +1036,12 @@ def run_case(ctx, case, model_out=None):
             if case["herm_h"]:
                 if np.linalg.norm(out - out.conj().T) > ptol:
                     probs.append("exp(-itL)rho is not Hermitian")
-                U = taylor_expm(-1j * case["t"] * Hd)
-                if np.linalg.norm(out - U @ rho @ U.conj().T) > 1e-9 * max(1.0, np.linalg.norm(U) ** 2):
-                    probs.append("exp(-itL)rho differs from U rho U^dagger")
+                if float(np.linalg.norm(case["t"] * Hd, 2)) > 40.0:
+                    ctx.boundary_skipped += 1       # exp(-itH) of a huge H (e.g. a large multiple of 1): reference inexact
+                else:
+                    U = taylor_expm(-1j * case["t"] * Hd)
+                    if np.linalg.norm(out - U @ rho @ U.conj().T) > 1e-9 * max(1.0, np.linalg.norm(U) ** 2):
+                        probs.append("exp(-itL)rho differs from U rho U^dagger")
             ctx.hyp_validated += 1
     if probs:
         ctx.oracle_fail(case, "; ".join(probs[:4]))
@@ -631,10 +1052,31 @@ def shrink(case):
     for i in range(len(case["jumps"])):
         c = copy.deepcopy(case)
         del c["jumps"][i]
+        if "bare_idx" in c:
+            c["bare_idx"] = [j - (j > i) for j in c["bare_idx"] if j != i]
         if not c["jumps"]:
             c["form"] = "empty"
         elif c["form"].startswith("single") and len(c["jumps"]) != 1:
             c["form"] = "tuples"
+        yield c
+    # the decorations of the input-space families, one at a time
+    for k in ("call", "ham_form", "rate_types", "extra_ham_labels"):
+        if k in case:
+            c = copy.deepcopy(case)
+            del c[k]
+            yield c
+    for k in ("dtype", "layout", "exp"):
+        if any(k in o for o in case["ops"].values()):
+            c = copy.deepcopy(case)
+            for o in c["ops"].values():
+                o.pop(k, None)
+                if k == "dtype":
+                    o.pop("mul", None)
+            yield c
+    used_labels = set(ham_labels(case)) | set(jump_labels(case))
+    if any(l not in used_labels for l in case["ops"]):
+        c = copy.deepcopy(case)
+        c["ops"] = {l: o for l, o in c["ops"].items() if l in used_labels}
         yield c
     for i in range(len(case["ham"])):
         c = copy.deepcopy(case)
